@@ -127,6 +127,19 @@ where
 
     fields.clear();
 
+    // a frame may end inside the first boundary line (with or without the optional leading CRLF):
+    // `next_line` would hand out the unterminated tail as a line, so wait for the rest instead
+    if buf.len() < pat.len() && pat.starts_with(buf) {
+        return Err((body, pat));
+    }
+    if let Some(rest) = buf.strip_prefix(b"\r\n") {
+        if rest.len() < pat.len() && pat.starts_with(rest) {
+            return Err((body, pat));
+        }
+    } else if buf == b"\r" {
+        return Err((body, pat));
+    }
+
     let mut lines = CrlfLines { slice: buf };
 
     // first line
